@@ -24,7 +24,11 @@ RULE = ('pseudo-observation arrays X (n,2): samples of Clayton/Frank/Gumbel draw
         'Bivariate.select_copula. A case is distinct by (kind, bytes of X) and non-trivial when the ranking path '
         'is taken (tau > 0). The search also runs HISTORIES: chains of data sets whose taus differ by 2/(n(n-1)) '
         '(one pair of points swapped) or sliding windows of one long sample, visited forwards and backwards in one '
-        'process; after every call theta is compared with a harness-side calibration of that data set\'s own tau.')
+        'process; after every call theta is compared with a harness-side calibration of that data set\'s own tau; an '
+        'ALIASING batch (8 calls on harness-sampled arrays covering all three families, all results kept and re-checked: '
+        'unchanged, pairwise distinct objects, equal to a second call on the same X); and LARGE-n cases (n = 10000, '
+        '12000, 20001 from harness-side samplers): _compute_empirical against the definition over all rows (1e-12) and '
+        'against the Lean model (tie), family recovery on two strongly dependent cells.')
 PARTIAL = ['family_recovery_partial: ">= 70 % of seeds per (family, tau) cell for tau in [0.3,0.7], n >= 3000" is a '
            'statistical statement about samples; not modelled, examined only by the failing-input search (thorough '
            'tier / after a broken obligation)',
@@ -490,11 +494,33 @@ def rank_semantics(ctx, lean):
     ctx.ob('corr:rank-argmax-semantics', bad is None, 'tie', bad or 'ok')
 
 
+def large_n_tie(ctx, lean, grid):
+    """(A) at n = 10000, 12000, 20001: the model's empirical tail curves against `_compute_empirical`."""
+    from copulas.bivariate import _compute_empirical
+    bad = None
+    gh = hexes(grid)
+    for fam, tau, n, seed in LARGE_N:
+        X = own_sample(fam, tau, n, seed)
+        with np.errstate(all='ignore'):
+            real = _compute_empirical(X)
+        ep = lean.ask(f'selcop emp {len(grid)} {gh} {hex_array(X)}').split(' | ')
+        ctx.case(('large-n', fam, n, seed), nontrivial=True)
+        ctx.count('large-n')
+        d = None
+        if not ep[0].startswith('ok'):
+            d = f'model {ep[0][:60]}'
+        else:
+            d = compare_empirical(real, [unhex(p) for p in ep[1:5]], 1e-6, 'model')
+        if d and bad is None:
+            bad = {'family': fam, 'tau': tau, 'n': n, 'seed': seed, 'diff (real vs model)': d}
+    ctx.ob('corr:empirical-large-n', bad is None, 'tie', bad or 'ok')
+
+
 def run(ctx, lean):
     names = ['corr:grid', 'corr:select', 'corr:calibration', 'corr:candidates', 'corr:empirical',
              'corr:candidate-curves', 'corr:decision', 'corr:alias']
     if lean is None:
-        for n in names + ['corr:rank-argmax-semantics']:
+        for n in names + ['corr:rank-argmax-semantics', 'corr:empirical-large-n']:
             ctx.ob(n, False, 'tie', 'driver unavailable')
         return
     from copulas.utils import EPSILON
@@ -522,6 +548,7 @@ def run(ctx, lean):
         t.one(kind, X)
     for n in names[1:]:
         ctx.ob(n, n not in t.bad, 'tie', t.bad.get(n, 'ok'))
+    large_n_tie(ctx, lean, grid)
 
 
 # ----------------------------------------------------------------------------------- oracle on real code
@@ -722,6 +749,163 @@ def history_oracle(ctx, deep):
     return checks
 
 
+# ----------------------------------------------------------------------------------- own samplers, large n, aliasing
+def own_sample(fam, tau, n, seed):
+    """harness-side samplers (numpy only, no copulas code): Clayton by gamma frailty, Gumbel by positive-stable
+    frailty (Chambers-Mallows-Stuck), Frank by closed-form conditional inversion; `-reflected` maps v -> 1-v."""
+    if fam.endswith('-reflected'):
+        X = own_sample(fam[:-len('-reflected')], tau, n, seed)
+        X[:, 1] = 1.0 - X[:, 1]
+        return X
+    r = np.random.RandomState(seed)
+    if fam == 'clayton':
+        th = 2 * tau / (1 - tau)
+        w = r.gamma(1.0 / th, size=n)
+        e = r.exponential(size=(n, 2))
+        X = (1.0 + e / w[:, None]) ** (-1.0 / th)
+    elif fam == 'gumbel':
+        a = 1.0 - tau                           # 1/theta
+        v = r.uniform(0.0, np.pi, size=n)
+        w = r.exponential(size=n)
+        s = (np.sin(a * v) / np.sin(v) ** (1.0 / a)) * (np.sin((1 - a) * v) / w) ** ((1 - a) / a)
+        e = r.exponential(size=(n, 2))
+        X = np.exp(-(e / s[:, None]) ** a)
+    else:
+        th = frank_theta_independent(np.float64(tau))
+        u = r.uniform(size=n)
+        p = r.uniform(size=n)
+        a = np.exp(-th * u)
+        x = p * np.expm1(-th) / (a - p * (a - 1.0))
+        X = np.column_stack((u, -np.log1p(x) / th))
+    return np.clip(X, 1e-12, 1.0 - 1e-12)
+
+
+LARGE_N = (('clayton', 0.6, 12000, 21), ('gumbel', 0.6, 10000, 22), ('clayton', 0.5, 20001, 23))
+LARGE_N_RECOVERY = (0, 1)          # indices into LARGE_N: strongly dependent cells whose family must be returned
+
+
+def raw_grid():
+    """the grid values with the dtype the real code gives them."""
+    from copulas.bivariate import _compute_empirical
+    return list(_compute_empirical(np.array([[0.0, 0.0]]))[0])
+
+
+def empirical_definition(X, grid):
+    """the empirical tail-concentration functions by their definition, over ALL rows: L(z) = #{U<=z, V<=z}/N / z^2,
+    R(z) = #{U>=z, V>=z}/N / (1-z)^2, recorded where the fraction is positive (z arithmetic in the grid's own dtype,
+    as `base[k] ** 2` / `(1 - z_right[k]) ** 2` are)."""
+    U, V = X[:, 0], X[:, 1]
+    n = len(U)
+    zl, L, zr, R = [], [], [], []
+    for z in grid:
+        zf = float(z)
+        left = np.count_nonzero((U <= zf) & (V <= zf)) / n
+        right = np.count_nonzero((U >= zf) & (V >= zf)) / n
+        if left > 0:
+            zl.append(zf)
+            L.append(left / float(z ** 2))
+        if right > 0:
+            zr.append(zf)
+            R.append(right / float((1 - z) ** 2))
+    return zl, L, zr, R
+
+
+def compare_empirical(real, ref, rtol, other='definition'):
+    for nm, a, b in zip(('z_left', 'L', 'z_right', 'R'), real, ref):
+        if len(a) != len(b):
+            return f'{nm}: {len(a)} entries, {other} gives {len(b)}'
+        for k, (x, y) in enumerate(zip(a, b)):
+            if not close(x, y, 0.0 if nm.startswith('z') else rtol):
+                return f'{nm}[{k}]: real {float(x)!r}, {other} {float(y)!r}'
+    return None
+
+
+def large_n_case(ctx, spec, recover):
+    from copulas.bivariate import _compute_empirical, select_copula
+    fam, tau, n, seed = spec
+    X = own_sample(fam, tau, n, seed)
+    inp = {'sampler': 'harness own_sample', 'family': fam, 'tau': tau, 'n': n, 'seed': seed}
+    with np.errstate(all='ignore'):
+        d = compare_empirical(_compute_empirical(X), empirical_definition(X, raw_grid()), 1e-12)
+    if d:
+        ctx.fail_input('copulas.bivariate._compute_empirical', inp, d,
+                       'the empirical tail functions are the fractions of ALL n rows in [0,z]^2 and [z,1]^2 divided by '
+                       'z^2 and (1-z)^2, for every n', '_compute_empirical:not-the-empirical-tail:large-n')
+    if recover:
+        with np.errstate(all='ignore'):
+            got = fam_of(select_copula(X))
+        if got != fam:
+            ctx.fail_input('copulas.bivariate.select_copula', inp, {'selected': got},
+                           f'a strongly dependent {fam} sample of {n} rows is recognised as {fam}',
+                           'select_copula:family-not-recovered:large-n')
+    return 2 if recover else 1
+
+
+def large_n_oracle(ctx):
+    return sum(large_n_case(ctx, spec, i in LARGE_N_RECOVERY) for i, spec in enumerate(LARGE_N))
+
+
+ALIAS_BATCH = (('clayton', 0.5, 1500, 11), ('gumbel', 0.5, 1500, 12), ('frank', 0.5, 1500, 13),
+               ('clayton-reflected', 0.45, 800, 14), ('clayton', 0.3, 1500, 15), ('gumbel', 0.7, 1500, 16),
+               ('frank', 0.3, 1200, 17), ('clayton', 0.65, 600, 18))
+ALIAS_POINTS = np.array([[0.2, 0.3], [0.5, 0.5], [0.7, 0.4], [0.9, 0.95]])
+
+
+def snapshot(obj):
+    with np.errstate(all='ignore'):
+        try:
+            c = [float(x) for x in obj.cumulative_distribution(ALIAS_POINTS.copy())]
+            p = [float(x) for x in obj.probability_density(ALIAS_POINTS.copy())]
+        except Exception as e:  # noqa
+            c, p = [vc.exc_kind(e)], []
+    return [fam_of(obj), float(obj.tau), float(obj.theta), c, p]
+
+
+def snap_eq(a, b):
+    return a[0] == b[0] and same(a[1], b[1]) and same(a[2], b[2]) and len(a[3]) == len(b[3]) and \
+        len(a[4]) == len(b[4]) and all(x == y or (x != x and y != y) for x, y in zip(a[3] + a[4], b[3] + b[4]))
+
+
+def aliasing_oracle(ctx, batch=ALIAS_BATCH):
+    """every call returns its own object: keep all results of a batch of calls, then each kept result must still be
+    what it was right after its own call, must be a different object from every other call's result, and must agree
+    with a second call on its own X."""
+    from copulas.bivariate import select_copula
+    kept = []
+    for spec in batch:
+        X = own_sample(*spec)
+        with np.errstate(all='ignore'):
+            r = select_copula(X)
+        kept.append((spec, X, r, snapshot(r)))
+    ctx.count('alias-batch:' + ''.join(sorted({k[3][0][0] for k in kept})))
+    inp = {'batch': [list(s) for s in batch], 'sampler': 'harness own_sample', 'points': ALIAS_POINTS.tolist()}
+    req = 'each call returns its own calibrated object: a result kept by the caller is unchanged by later calls, is not ' \
+          'the object returned by another call, and equals what a second call on the same X returns'
+    cls = 'select_copula:result-aliased-across-calls'
+    checks = 0
+    for i, (spec, X, r, snap) in enumerate(kept):
+        now = snapshot(r)
+        checks += 3
+        if not snap_eq(snap, now):
+            ctx.fail_input('copulas.bivariate.select_copula', dict(inp, call=i),
+                           {'right_after_its_call': snap, 'after_the_later_calls': now}, req, cls)
+            return checks
+        for j in range(i):
+            if kept[j][2] is r:
+                ctx.fail_input('copulas.bivariate.select_copula', dict(inp, call=i, other_call=j),
+                               'the two calls returned the very same object', req, cls)
+                return checks
+    for i, (spec, X, r, snap) in enumerate(kept):
+        with np.errstate(all='ignore'):
+            again = snapshot(select_copula(X.copy()))
+        now = snapshot(r)
+        if not (snap_eq(snap, again) and snap_eq(snap, now)):
+            ctx.fail_input('copulas.bivariate.select_copula', dict(inp, call=i),
+                           {'first_call': snap, 'second_call_same_X': again, 'kept_result_now': now}, req, cls)
+            return checks
+    return checks
+
+
 RECOVERY_TAUS = (0.3, 0.5, 0.7)
 RECOVERY_N = 3000
 RECOVERY_SEEDS = 10
@@ -750,6 +934,8 @@ def search(ctx, deep):
                             6 if not deep else 30, sizes):
         checks += oracle(ctx, kind, X)
     checks += history_oracle(ctx, deep)
+    checks += aliasing_oracle(ctx)
+    checks += large_n_oracle(ctx)
     cells = {}
     if deep:
         rng = ctx.rng('recovery')
@@ -778,6 +964,12 @@ def replay(ctx, payload):
         fam = inp['family']
         got = recovery_cell(fam, inp['tau'], inp['seeds'], inp.get('n', RECOVERY_N))
         return sum(1 for g in got if g == fam) < 0.7 * len(got)
+    if cls == 'select_copula:result-aliased-across-calls' and 'batch' in inp:
+        aliasing_oracle(ctx, tuple(tuple(b) for b in inp['batch']))
+        return any(f['class'] == cls for f in ctx.failing[before:])
+    if cls.endswith(':large-n') and 'seed' in inp:
+        large_n_case(ctx, (inp['family'], inp['tau'], inp['n'], inp['seed']), cls.startswith('select_copula'))
+        return any(f['class'] == cls for f in ctx.failing[before:])
     if cls == 'select_copula:result-depends-on-history' and 'mode' in inp:
         run_history(ctx, inp.get('label', 'replay'), build_history(inp), inp['visit'], inp)
         return any(f['class'] == cls for f in ctx.failing[before:])
